@@ -46,6 +46,7 @@ static void recover(bool present,const std::string &bytes,const std::vector<Save
 			if(script==0){ verdict_a=ok; data_a=out; dl_a=dl; }
 			else if(script==1){ if(!boundary&&((int)ok!=verdict_a||(ok&&(out!=data_a||dl!=dl_a)))) bad("gc:changes-outcome","gc before load changes what load returns (gc removed a live session or resurrected a dead one)",pre); }
 			if(script==2){ st.gc(); time_t dl2=0; std::string o2; bool ok2=st.load(SID,dl2,o2); if(ok2!=ok||(ok&&(o2!=out||dl2!=dl))) { if(!boundary) bad("gc:after-load","load / gc / load: the second load differs from the first",pre); } }
+			{ static uint64_t sc=0; if(vf::sample_tick(sc,30011)) vf::sample("{\"crash_state\":"+vf::jstr(pre)+",\"file_bytes\":"+std::to_string(present?(long)bytes.size():-1L)+",\"load\":"+(ok?"\"complete value of a save\"":"\"no session\"")+"}"); }
 			vf::outcome(std::string(ok?"T":"F")+std::to_string(out.size())+":"+std::to_string((long)(dl-1000000))+":"+std::to_string(script)); } }
 }
 
